@@ -19,6 +19,8 @@ func runC18(c *Check) {
 	c.dotEdgesDeclared()
 	c.callgrindRules()
 	c.htmlRules()
+	c.formatIsLiteral()
+	c.absoluteFormIsCurrent()
 }
 
 func (c *Check) dotTaint() {
